@@ -256,7 +256,11 @@ def closeall_rules(ctx, prog):
     I.keep_live = {var}
     loopfn = F.name
 
+    limit_sides = set()
+
     def body_hook(I_, fn, n, name, args, st):
+        if name in ("getrlimit", "sysconf", "getdtablesize"):
+            limit_sides.add((st.mon.get("proc") or "parent (before fork)", site_of(fn, n)))
         if fn.name != loopfn and name != "close":
             return None
         if st.mon.get("proc") != "child":
@@ -369,6 +373,10 @@ def closeall_rules(ctx, prog):
         arg_ok = False
     ctx.ob("C11.X2c", "process_fork: close-all loop body", "every other visited descriptor that is open (fcntl(i, F_GETFD) >= 0 and nothing "
            "else) is closed", guard_ok and arg_ok, {"guard": gtxt, "closes": [expr_str(x) for x in closes]}, nontrivial=True)
+    ctx.ob("C11.X2l", "process_fork: descriptor limit", "the limit that bounds the close-all loop is read in the child, after fork: a value "
+           "sampled in the parent is stale as soon as another thread raises the limit and opens a descriptor above it before the "
+           "fork, and that descriptor would survive", bool(limit_sides) and {x[0] for x in limit_sides} == {"child"},
+           {"read_at": sorted("%s: %s" % (a, b) for a, b in limit_sides)}, nontrivial=True)
     ctx.ob("C11.X2d", "process_fork: close-all loop (all paths)", "abstract interpretation of the loop: iterations end either with the "
            "descriptor closed or skipped (skips are classified by X2b/X2c)", verdicts.get("closed", 0) > 0, {k: (sorted(v) if isinstance(v, set) else v) for k, v in verdicts.items()},
            nontrivial=True)
